@@ -190,12 +190,11 @@ func (fr *Frame) unknownCall(x *ssa.Call, name string, st *State, rch Term) Val 
 	for _, fam := range fams {
 		vc.havocFam(st, fam)
 	}
+	var gs []string
 	for g := range ghostSorts {
-		if g == "$alloc" {
-			continue
-		}
-		vc.havocGhost(st, g)
+		gs = append(gs, g)
 	}
+	vc.havocGhostSet(st, gs)
 	old := vc.get(st, "$alloc")
 	na := vc.fresh("$alloc~h", "Int")
 	vc.assume(sx("<=", old, na))
@@ -221,6 +220,17 @@ func (fr *Frame) callByContract(x *ssa.Call, fn *ssa.Function, c *Contract, args
 			s = site + "." + cl.Label
 		}
 		vc.oblige("requires", s, rch, t, fr.props, !fr.top, vc.pos(x.Pos()))
+	}
+	// termination of recursion: callee's variant is smaller than the caller's
+	if decs := funcDecreases(c); len(decs) > 0 {
+		top := fr
+		_ = top
+		if tc := vc.topContract; tc != nil && vc.eng.reaches(fn, vc.topFn) {
+			if tdecs := funcDecreases(tc); len(tdecs) > 0 {
+				callee := env.intOf(decs[0].Expr)
+				vc.oblige("decreases", site+":recursion", rch, and(sx("<=", "0", callee), sx("<", callee, vc.topVariant)), fr.props, !fr.top, vc.pos(x.Pos()))
+			}
+		}
 	}
 	// frame
 	assigns := c.byKind("assigns")
@@ -262,25 +272,27 @@ func (fr *Frame) havocModset(ms *modset, st *State) {
 		for _, fam := range fams {
 			vc.havocFam(st, fam)
 		}
+		var gs []string
 		for g := range ghostSorts {
-			if g != "$alloc" {
-				vc.havocGhost(st, g)
-			}
+			gs = append(gs, g)
 		}
+		vc.havocGhostSet(st, gs)
 	} else {
 		var fams []string
 		for fam := range ms.fams {
 			fams = append(fams, fam)
 		}
 		sort.Strings(fams)
+		var gs []string
 		for _, fam := range fams {
 			if _, isGhost := ghostSorts[fam]; isGhost {
-				vc.havocGhost(st, fam)
+				gs = append(gs, fam)
 			} else {
 				vc.regFam(fam, ms.fams[fam])
 				vc.havocFam(st, fam)
 			}
 		}
+		vc.havocGhostSet(st, gs)
 	}
 	if ms.all || ms.allocs {
 		old := vc.get(st, "$alloc")
@@ -439,4 +451,42 @@ func init() {
 		m.fams["E$uint8"] = "Int"
 		intrinsicMods[fmt.Sprintf("(encoding/binary.bigEndian).PutUint%d", bits)] = m
 	}
+}
+
+func funcDecreases(c *Contract) []*Clause {
+	var out []*Clause
+	for _, cl := range c.Clauses {
+		if cl.Kind == "decreases" && cl.Loop == 0 {
+			out = append(out, cl)
+		}
+	}
+	return out
+}
+
+// reaches: can a call of from lead to a call of to (static call graph)?
+func (eng *Engine) reaches(from, to *ssa.Function) bool {
+	seen := map[*ssa.Function]bool{}
+	var dfs func(f *ssa.Function) bool
+	dfs = func(f *ssa.Function) bool {
+		if f == to {
+			return true
+		}
+		if seen[f] {
+			return false
+		}
+		seen[f] = true
+		for _, b := range f.Blocks {
+			for _, ins := range b.Instrs {
+				if c, ok := ins.(*ssa.Call); ok {
+					if callee := c.Common().StaticCallee(); callee != nil && callee.Blocks != nil && eng.inlinable(callee) {
+						if dfs(callee) {
+							return true
+						}
+					}
+				}
+			}
+		}
+		return false
+	}
+	return dfs(from)
 }
